@@ -1012,6 +1012,31 @@ func (env *Env) evalCall(e *Expr) EV {
 		et := x.GT.Underlying().(*types.Slice).Elem()
 		key, es := env.w.elemKey(et)
 		return EV{sel(env.heap(key), sarrOf(x.T)), arrSort(es), nil}
+	case "fieldMap":
+		// fieldMap(x.f): the whole heap component of field f (an array from object references to field values) in the current
+		// state; lets a recursive spec function range over a list of pointers (rec f(c intarr, o int, names strarr, ...)).
+		argn(1)
+		se := e.Args[0]
+		if se.Op != "sel" {
+			efail("fieldMap expects a field selector")
+		}
+		x := env.eval(se.Args[0])
+		if x.GT == nil {
+			efail("fieldMap on untyped value")
+		}
+		fs, fst := structOf(x.GT)
+		if fs == nil {
+			efail("fieldMap on non-struct type %s", x.GT)
+		}
+		fi := fieldIndex(fs, se.Name)
+		if fi < 0 {
+			efail("type %s has no field %s", fst, se.Name)
+		}
+		fkey, fsort := env.w.fieldKey(fst, fs.Field(fi))
+		if fsort == SStruct {
+			efail("fieldMap of an embedded struct")
+		}
+		return EV{env.heap(fkey), arrSort(fsort), nil}
 	case "strOfBytes":
 		argn(3)
 		a := env.eval(e.Args[0])
